@@ -397,6 +397,12 @@ class Structural:
             return None
         return self._sort_closure(arr)
 
+    @reg('numpy.sort')
+    def np_sort(self, x, axis=-1):
+        x = self.np_array(x)                     # sorted COPY
+        self.nd_sort(x)
+        return x
+
     def _sort_closure(self, arr):
         """In-place ascending sort of a 1-d closure array: fresh content with the sortedness/permutation axioms."""
         if len(arr.shape) != 1:
